@@ -5,3 +5,4 @@ use vstd::std_specs::cmp::*;
 use core::cmp::Ordering;
 use std::num::NonZeroU32;
 use core::str::FromStr;
+use std::sync::Arc;
